@@ -13,6 +13,9 @@ CLAIMED = {
  'C07': dict(technique='Coq proof of the elimination invariant over a hand model + vm_compute correspondence on all m! forced pivot orders',
              text='Theorem: for every shape, every entry and every pivot rule choosing a row in [j,m), whenever the model of quaternion_lu returns, PA = LU, IP is a permutation, L is unit lower, U upper, and the two-output mode gives A = (P^T L) U; the executed Qc instance (first arg-max, 1e-15 guard) inherits them. The model is run against LU.py on every interchange sequence for m <= 4 (5 thorough), tall/square/wide, singular inputs, both output modes.',
              note='Trusted: Coq kernel, the hand model (tied by correspondence: pivot rows exactly, factors within 1e-9, raise <-> None), exact rationals for binary64. Multipliers <= 1 is checked by the exact oracle on outputs, not proved.', ref='7/C07'),
+ 'C18': dict(technique='Coq proof over definitions translated from the source (qtrans) + bit-exact vm_compute correspondence over memory layouts',
+             text='Theorems for all I,J,K and all modes over an arbitrary entry type: the generated unfold has the mode-n fibres as columns, fold(unfold T) = T and unfold(fold M) = M pointwise, shapes, entrywise maps commute with unfolding, squared Frobenius norm preserved; rgb->quaternion->rgb (no clipping) and split/stack are inverse. Metrics and noise level are checked on the implementation (not theorems).',
+             note='Trusted: Coq kernel, qtrans (row-major reshape / axis permutation semantics, cross-checked on C, Fortran, transposed and strided layouts). Known findings: clip window of quat_to_rgb, underflow in psnr/relative_error.', ref='7/C18'),
 }
 checks = []
 for pid, c in sorted(CLAIMED.items()):
